@@ -1,15 +1,19 @@
 (* C09 - Compaction never loses or duplicates rows, even across crashes.
    Only property statements live here; proofs are in Proofs.v.
    [compact] is the DuckDB COPY of buildCompactionQuery, an oracle with the single
-   hypothesis [forall b l, rel b l (compact b l)]:  without dedup metadata (b = false) the
-   output is a permutation of the input rows; with it (b = true) some rows are dropped but
-   every (tags,time) key keeps one of its input rows. *)
+   hypothesis [forall b l, rel b l (compact (mode_of_bool b) l)]:  without dedup metadata
+   (DNone) the output is a permutation of the input rows; with metadata naming every tag
+   column (DFull) some rows are dropped but every (tags,time) key keeps one of its input rows.
+   NOTHING is assumed about DPart (the only tag metadata among the inputs names just part of
+   the tag columns): the positive theorem excludes such files (guard [f_part = false]); with
+   them the property is refuted (C09_partial_tags_refuted). *)
 From Coq Require Import List NArith Bool Arith Lia Permutation.
 From Arc Require Import Compaction.Model Compaction.Proofs.
 Import ListNotations.
 
-(* FULL-STRENGTH theorem (the code since 5306c6c: compactFilesAdaptively skips the retry of a
-   batch that a manifest tracks).  For EVERY partition content s0 (any number of readable
+(* Crash/kill theorem, full strength in its crash and kill points (the code since 5306c6c:
+   compactFilesAdaptively skips the retry of a batch that a manifest tracks); its only guard is
+   that no file carries tag metadata naming just PART of the tag columns.  For EVERY partition content s0 (any number of readable
    files, no manifest), every tier/batch configuration and every history h of process
    lifetimes - each runs one compaction cycle (manifest recovery, candidate filtering, batch
    splitting, adaptive halve-and-retry) in which ANY job may run to completion, fail
@@ -19,10 +23,11 @@ Import ListNotations.
    process down after any number of micro-steps (OCrash k) - one later undisturbed cycle leaves
    exactly the rows of s0 modulo dedup, no manifest, and only readable files. *)
 Theorem C09_crash_recover :
-  forall (compact : bool -> list row -> list row),
-  (forall b l, rel b l (compact b l)) ->
+  forall (compact : dmode -> list row -> list row),
+  (forall b l, rel b l (compact (mode_of_bool b) l)) ->
   forall pr cfg (h : list (bool * list outcome)) elig s0,
   NoDup (keys (files s0)) -> mans s0 = [] -> oks (files s0) ->
+  (forall p f, In (p, f) (files s0) -> f_part f = false) ->
   let s := cycle compact code_order pr cfg elig [] (lives compact pr cfg h s0) in
   rel (any_meta (files s0)) (visible s0) (visible s) /\
   mans s = [] /\ oks (files s) /\ NoDup (keys (files s)).
@@ -34,8 +39,8 @@ Print Assumptions C09_crash_recover.
    outputs, partially deleted inputs at once - manifest recovery alone yields a manifest-free
    state of readable files showing the reference rows modulo dedup. *)
 Theorem C09_recover_any_pending :
-  forall (compact : bool -> list row -> list row),
-  (forall b l, rel b l (compact b l)) ->
+  forall (compact : dmode -> list row -> list row),
+  (forall b l, rel b l (compact (mode_of_bool b) l)) ->
   forall B V s, pendV compact B V s ->
   exists F, recover_all s = mkState F [] /\ quiet (mkState F []) /\ nometa B F /\ rel B V (vis F).
 Proof. exact pend_recover. Qed.
@@ -44,14 +49,14 @@ Print Assumptions C09_recover_any_pending.
 (* Whatever the crash point of a job started between jobs, manifest recovery alone restores
    either the files as they were or the files of the completed job, and removes every manifest. *)
 Theorem C09_recover_any_prefix :
-  forall (compact : bool -> list row -> list row),
-  (forall b l, rel b l (compact b l)) ->
+  forall (compact : dmode -> list row -> list row),
+  (forall b l, rel b l (compact (mode_of_bool b) l)) ->
   forall s ins k, quiet s -> NoDup ins ->
   exists F, recover_all (run (firstn k (job_steps compact code_order ins s)) s) = mkState F [] /\
             (F = files s \/ F = files_done compact (fresh_path s) s ins).
 Proof.
   intros compact Hc s ins k Q Hnd. rewrite job_steps_unfold.
-  exact (recover_prefix compact Hc (fresh_path s) (fresh_man s) s ins k Q (fresh_for_fresh s) Hnd).
+  exact (recover_prefix compact (fresh_path s) (fresh_man s) s ins k Q (fresh_for_fresh s) Hnd).
 Qed.
 Print Assumptions C09_recover_any_prefix.
 
@@ -99,13 +104,27 @@ Theorem C09_kill_after_upload_recovers :
 Proof. exact wit_final_rows. Qed.
 Print Assumptions C09_kill_after_upload_recovers.
 
+(* REFUTATION of the unguarded property - no crash point is needed, only a cycle that ends
+   between two batches.  f1, f2 carry the full tag set and hold two rows that agree on host and
+   time and differ in the other tag; f3, f4 carry arc:tags naming only part of the tag columns.
+   Batch [f1,f2] is compacted - the output carries NO tag metadata - and the process stops.
+   The next cycle compacts [f3,f4,output] with the UNION of the inputs' tag metadata, which is
+   the partial set: the two rows collapse and a row with non-identical tag values is lost. *)
+Theorem C09_partial_tags_refuted :
+  let s1 := cycle dedup_ref code_order wit_params (mkConfig 2 2) true [ODone; OCrash 0] part_s0 in
+  let s := cycle dedup_ref code_order wit_params (mkConfig 2 2) true [] s1 in
+  visible s = [mkRow 3 3 12; mkRow 4 4 13; mkRow 1 1 10] /\
+  ~ rel (any_meta (files part_s0)) (visible part_s0) (visible s).
+Proof. exact partial_tags_lose_rows. Qed.
+Print Assumptions C09_partial_tags_refuted.
+
 (* The executable relation used by the correspondence oracle implies the specification. *)
 Theorem C09_relb_sound : forall b l1 l2, relb b l1 l2 = true -> rel b l1 l2.
 Proof. exact relb_sound. Qed.
 Print Assumptions C09_relb_sound.
 
 (* Non-vacuity.  The oracle hypothesis is satisfiable (the reference dedup meets it) ... *)
-Theorem C09_oracle_hypothesis_satisfiable : forall b l, rel b l (dedup_ref b l).
+Theorem C09_oracle_hypothesis_satisfiable : forall b l, rel b l (dedup_ref (mode_of_bool b) l).
 Proof. exact dedup_ref_spec. Qed.
 Print Assumptions C09_oracle_hypothesis_satisfiable.
 
@@ -123,7 +142,7 @@ Proof.
 Qed.
 
 Example C09_dedup_collapses :
-  let f := mkFile [mkRow 1 10; mkRow 1 11; mkRow 2 12] true false 4%N true in
+  let f := mkFile [mkRow 1 1 10; mkRow 1 1 11; mkRow 2 2 12] true false false 4%N true in
   let s0 := mkState [(1%N, f); (2%N, f)] [] in
-  visible (cycle dedup_ref code_order wit_params wit_cfg true [] s0) = [mkRow 1 10; mkRow 2 12].
+  visible (cycle dedup_ref code_order wit_params wit_cfg true [] s0) = [mkRow 1 1 10; mkRow 2 2 12].
 Proof. vm_compute. reflexivity. Qed.
